@@ -261,6 +261,14 @@ func (ws *priorityWriteScheduler) OpenStream(streamID uint32, options OpenStream
 			panic(fmt.Sprintf("stream %d already opened", streamID))
 		}
 		curr.state = priorityNodeOpen
+		// The node is no longer idle: stop tracking it in idleNodes, otherwise
+		// a later overflow of that list removes an open stream from the tree.
+		for i, n := range ws.idleNodes {
+			if n == curr {
+				ws.idleNodes = append(ws.idleNodes[:i], ws.idleNodes[i+1:]...)
+				break
+			}
+		}
 		return
 	}
 
